@@ -19,8 +19,8 @@ var kinds = []kind{
 	{"ptr", "*int", false, []string{"p", "nil", "new(int)", "&loc", "gPtr", "m[\"k\"]", "(*int)(unsafe.Pointer(u))", "(*int)(nil)", "lib.NewPtr()", "lib.MaybePtr(c)", "lib.NilPtr()", "idPtr(p)", "func() *int { return nil }()", "st.P", "(&st).P"}, "new(int)"},
 	{"slice", "[]int", false, []string{"s", "nil", "[]int{}", "make([]int, n&3)", "s[:0]", "s[1:]", "s[:0:0]", "s[0:n&1]", "append(s, 1)", "append([]int(nil), s...)", "append(s[:0:0])", "arr[:]", "arr[:0]", "gSl", "unsafe.Slice(p, n&1)", "lib.Sl(c)", "lib.NilSl()", "st.S", "[]int(lib.NamedSl(s))"}, "[]int{1}"},
 	{"map", "map[string]*int", false, []string{"m", "nil", "map[string]*int{}", "make(map[string]*int)", "gMap", "lib.Map(c)"}, "map[string]*int{}"},
-	{"any", "any", true, []string{"x", "nil", "any(p)", "any(s)", "any(e)", "any(n)", "lib.Iface(c)", "lib.TypedNil()", "any((*int)(nil))", "any(new(int))", "st.X"}, "any(1)"},
-	{"err", "error", true, []string{"e", "nil", "error((*lib.E)(nil))", "&lib.E{}", "errors.New(\"x\")", "lib.Err(c)", "lib.TypedNilErr()", "lib.NeverNilErr()", "gErr"}, "errors.New(\"nn\")"},
+	{"any", "any", true, []string{"x", "nil", "any(p)", "any(s)", "any(e)", "any(n)", "lib.Iface(c)", "lib.TypedNil()", "any((*int)(nil))", "any(new(int))", "st.X", "genAny[error](e)", "genAny[any](x)", "genAny[*int](p)"}, "any(1)"},
+	{"err", "error", true, []string{"e", "nil", "error((*lib.E)(nil))", "&lib.E{}", "errors.New(\"x\")", "lib.Err(c)", "lib.TypedNilErr()", "lib.NeverNilErr()", "gErr", "genErr[error](e)", "genErr[*lib.E](nil)", "genErr(&lib.E{})"}, "errors.New(\"nn\")"},
 	{"uptr", "unsafe.Pointer", false, []string{"unsafe.Pointer(p)", "unsafe.Pointer(u)", "unsafe.Add(unsafe.Pointer(p), n&1)", "nil", "unsafe.Pointer(uintptr(0))", "unsafe.Pointer(&loc)"}, "unsafe.Pointer(new(int))"},
 	{"fn", "func() int", false, []string{"f", "nil", "func() int { return n }", "lib.Fn(c)", "st.F", "p2.Get"}, "func() int { return 1 }"},
 	{"chan", "chan int", false, []string{"ch", "nil", "make(chan int)", "make(chan int, 1)", "lib.Ch(c)"}, "make(chan int)"},
@@ -121,11 +121,16 @@ func genFunc(rng *rand.Rand, idx int) fn {
 	}
 	steps := 1 + rng.IntN(4)
 	for i := 0; i < steps; i++ {
-		switch rng.IntN(16) {
+		switch rng.IntN(18) {
 		case 0: // phi
 			fmt.Fprintf(&b, "\tif c {\n\t\tv = %s\n\t}\n", src())
 		case 1: // swap in a loop: parallel assignment through phis
-			fmt.Fprintf(&b, "\t{\n\t\tvar w %s = %s\n\t\tfor i := 0; i < n; i++ {\n\t\t\tv, w = w, v\n\t\t}\n\t\t_ = w\n\t}\n", k.typ, src())
+			// after the loop either variable may be the one that is returned
+			tail := "_ = w"
+			if rng.IntN(2) == 0 {
+				tail = "v = w"
+			}
+			fmt.Fprintf(&b, "\t{\n\t\tvar w %s = %s\n\t\tfor i := 0; i < n; i++ {\n\t\t\tv, w = w, v\n\t\t}\n\t\t%s\n\t}\n", k.typ, src(), tail)
 		case 2: // refinement: replace nil by something else
 			fmt.Fprintf(&b, "\tif v == nil {\n\t\tv = %s\n\t}\n", src())
 		case 3: // early return of the non-nil value
@@ -152,9 +157,23 @@ func genFunc(rng *rand.Rand, idx int) fn {
 			}
 		case 10: // type switch
 			if k.iface {
-				fmt.Fprintf(&b, "\tswitch t := v.(type) {\n\tcase nil:\n\t\tv = %s\n\tcase *int:\n\t\tif t == nil {\n\t\t\tv = %s\n\t\t}\n\tcase error:\n\t\t_ = t\n\tdefault:\n\t\tv = t\n\t}\n", src(), src())
+				concrete := "*int"
+				if k.name == "err" {
+					concrete = "*lib.E"
+				}
+				fmt.Fprintf(&b, "\tswitch t := v.(type) {\n\tcase nil:\n\t\tv = %s\n\tcase %s:\n\t\tif t == nil {\n\t\t\tv = %s\n\t\t}\n\tcase interface{ Unwrap() error }:\n\t\t_ = t\n\tdefault:\n\t\tv = t\n\t}\n", src(), concrete, src())
 			} else {
 				fmt.Fprintf(&b, "\tswitch t := x.(type) {\n\tcase %s:\n\t\tv = t\n\tcase nil:\n\tdefault:\n\t\t_ = t\n\t}\n", k.typ)
+			}
+		case 16: // a type switch clause that lists nil next to another type
+			if k.iface {
+				concrete := "*int"
+				if k.name == "err" {
+					concrete = "*lib.E"
+				}
+				fmt.Fprintf(&b, "\tswitch t := v.(type) {\n\tcase nil, %s:\n\t\t_ = t\n\t\tCounter++\n\tdefault:\n\t\tv = %s\n\t}\n", concrete, src())
+			} else {
+				fmt.Fprintf(&b, "\tswitch x.(type) {\n\tcase nil, %s:\n\t\tv = %s\n\t}\n", k.typ, src())
 			}
 		case 11: // loop-carried
 			fmt.Fprintf(&b, "\tfor i := 0; i < n; i++ {\n\t\tif i == 1 {\n\t\t\tv = %s\n\t\t\tcontinue\n\t\t}\n\t\tif v == nil {\n\t\t\tbreak\n\t\t}\n\t}\n", src())
@@ -196,11 +215,12 @@ func genFunc(rng *rand.Rand, idx int) fn {
 
 func helpers() string {
 	var b strings.Builder
-	b.WriteString("type S struct {\n\tP *int\n\tS []int\n\tX any\n\tF func() int\n}\n\nfunc (s *S) Get() int { return 1 }\n\ntype MyPtr *int\n\nvar (\n\tgPtr *int\n\tgSl  []int\n\tgMap map[string]*int\n\tgErr error\n)\n\n")
+	b.WriteString("type S struct {\n\tP *int\n\tS []int\n\tX any\n\tF func() int\n}\n\nfunc (s *S) Get() int { return 1 }\n\ntype MyPtr *int\n\nvar Counter int\n\nvar (\n\tgPtr *int\n\tgSl  []int\n\tgMap map[string]*int\n\tgErr error\n)\n\n")
 	for _, k := range kinds {
 		fmt.Fprintf(&b, "var g%s %s\n\nfunc id%s(v %s) %s { return v }\n\n", k.name, k.typ, k.name, k.typ, k.typ)
 	}
-	b.WriteString("func idPtr(v *int) *int { return v }\n")
+	b.WriteString("func idPtr(v *int) *int { return v }\n\n")
+	b.WriteString("// generic relays: T may be instantiated with an interface type, whose nil converts to a nil interface\nfunc genAny[T any](x T) any { return x }\n\nfunc genErr[T error](x T) error { return x }\n")
 	return b.String()
 }
 
@@ -233,7 +253,7 @@ import (
 	"unsafe"
 
 	"example.com/nilp/lib"
-	"example.com/nilp/p"
+	pk "example.com/nilp/p"
 )
 
 var one = 1
@@ -306,7 +326,7 @@ func main() {
 	}
 	m.WriteString("\t}\n\tfor vi, v := range vecs {\n\t\tp, s, m, x, e, c, n, u, f, ch := v.p, v.s, v.m, v.x, v.e, v.c, v.n, v.u, v.f, v.ch\n\t\t_, _, _, _, _, _, _, _, _, _ = p, s, m, x, e, c, n, u, f, ch\n")
 	for _, f := range pr.fns {
-		call := fmt.Sprintf("p.%s(%s)", f.name, callArgs)
+		call := fmt.Sprintf("pk.%s(%s)", f.name, callArgs)
 		if f.two {
 			fmt.Fprintf(&m, "\t\tobs(%q, vi, func() (bool, string) { r, _ := %s; return r == nil, %s })\n", f.name, call, map[bool]string{true: "innerNil(r)", false: "\"-\""}[f.k.iface])
 		} else {
@@ -320,8 +340,8 @@ func main() {
 	m.WriteString("\t}\n}\n\n")
 	for _, f := range pr.fns {
 		if f.k.iface && !f.two {
-			fmt.Fprintf(&m, "func cmpEq%s(%s) bool { return p.%s(%s) == nil }\n\n", f.name, params, f.name, callArgs)
-			fmt.Fprintf(&m, "func cmpNe%s(%s) bool { return p.%s(%s) != nil }\n\n", f.name, params, f.name, callArgs)
+			fmt.Fprintf(&m, "func cmpEq%s(%s) bool { return pk.%s(%s) == nil }\n\n", f.name, params, f.name, callArgs)
+			fmt.Fprintf(&m, "func cmpNe%s(%s) bool { return pk.%s(%s) != nil }\n\n", f.name, params, f.name, callArgs)
 		}
 	}
 	pr.files["cmd/obs/main.go"] = m.String()
